@@ -1,19 +1,34 @@
 """C16 - any binary input ends in success or a diagnostic, never a crash."""
 import json, os, shutil
 from .. import core, formats, mutate, crash, corpus
+from .. import fieldmut as FM
 
 META = {
     'level': 'exploration',
-    'rule': 'corpus = 30 bundled binaries + binaries compiled from generated sources (all formats/games); each is fed unmodified, truncated, byte/word/dword-mutated '
-            '(extreme values at aligned positions hit sizes, counts, offsets, jump targets, register ids, string bytes, magic) and cross-game to decompile (random option subsets, '
-            'widths) and to `truanm extract`; observed: worker death, panic site, CPU seconds, peak allocation, Result vs diagnostics, file named in the error. '
+    'rule': 'corpus = 30 bundled binaries + binaries compiled from generated sources (all formats/games, incl. ANM files with embedded textures and TH10+ ECL); each is fed '
+            'unmodified, truncated (stride and at every field boundary), *field-targeted* (an independent layout parser records every header field, count, offset, size, '
+            'instruction header and bulk region it reads; one or two of them are set to boundary values: 0, 1, max, sign bit, +-1, x2, file length...; regions get damaged '
+            'bytes / missing NULs), generically byte/word/dword-mutated and cross-game, to decompile (random option subsets, widths) and to `truanm extract`; observed: worker death, panic site, CPU seconds, peak allocation, Result vs diagnostics, file named in the error. '
             'distinct = hash(mutated bytes, tool, game, entry point); non-trivial = input differs from a pristine corpus file',
     'assumptions': ['memory bound: peak allocation <= 64 MiB + 4096 x input size', '"hangs" restated as > 20 CPU-seconds per input'],
-    'floors': {'pristine_ok': 10, 'mutants': 300, 'mutants_rejected_with_diagnostic': 30, 'extract_runs': 20},
+    'floors': {'pristine_ok': 10, 'mutants': 300, 'mutants_rejected_with_diagnostic': 30, 'extract_runs': 20, 'field_mutants': 200, 'corpus_anm_with_texture': 3, 'corpus_modern_ecl': 3},
     'profiles': {'quick': ('dev',), 'thorough': ('dev', 'release')},
 }
 SIZES = {'quick': 16000, 'thorough': 200000}
 OPTS = ['blocks', 'intrinsics', 'arguments', 'diff_switches', 'calls']
+
+def output_image_tag(data, game):
+    """A file whose own (width + offset) x (height + offset) asks for an output image beyond the memory bound: the one recorded cause
+    of large allocations in extract.  Computed from the bytes by the independent layout parser, never from truth."""
+    from .. import layout as L
+    try: ents = L.parse_anm(data, game)
+    except Exception: return None
+    for e in ents:
+        t, h = e.get('thtx'), e['header']
+        if t and 4 * (t['width'] + h['offset_x']) * (t['height'] + h['offset_y']) > crash.MEM_BASE // 3: return 'output-image-dimensions'
+    return None
+
+IMGSRC_TEXT = 'entry { path: "subdir/file0.png", has_data: true, sprites: {} }\nentry { path: "a.png", has_data: true, sprites: {} }\n'
 
 def run_one(ctx, entry, data, tool, game, msg_mode, cmd, cls, mut=None):
     r = ctx.rng
@@ -22,23 +37,30 @@ def run_one(ctx, entry, data, tool, game, msg_mode, cmd, cls, mut=None):
     job = {'tool': tool, 'cmd': cmd, 'game': game, 'in': src}
     if msg_mode: job['msg_mode'] = msg_mode
     outdir = None
-    if cmd == 'decompile':
+    input_id = None
+    if cmd == 'imgsrc':
+        # the binary is read as an *image source* of a compilation (`truanm compile -i FILE`): a third reader entry point
+        job = {'tool': 'anm', 'cmd': 'compile', 'game': game, 'in': ctx.write('imgsrc.spec', IMGSRC_TEXT), 'out': os.path.join(ctx.dir, 'imgsrc.out'), 'images': [src]}
+    elif cmd == 'decompile':
         job['out'] = os.path.join(ctx.dir, 'out.txt')
         job['dopts'] = {k: False for k in OPTS if r.chance(0.25)}
         job['width'] = r.pick([1, 20, 80, 100, 200])
     else:
+        input_id = output_image_tag(data, game)
         outdir = os.path.join(ctx.dir, 'extract'); shutil.rmtree(outdir, ignore_errors=True)
         job['out'] = outdir
     resp = ctx.cli(job)
     ctx.evaluations += 1
-    replay = {'job': dict(job, **{'in': name, 'out': 'out'}), 'data_hex': data.hex() if len(data) <= 200000 else data[:200000].hex(), 'class': cls,
+    replay = {'job': dict(job, **{'in': name, 'out': 'out'}), 'entry_point': cmd, 'data_hex': data.hex() if len(data) <= 200000 else data[:200000].hex(), 'class': cls,
               'origin': entry['name'], 'mutation': mut}
-    v = crash.judge_exec(ctx, 'C16', job, resp, len(data), '%s %s -g %s (%s of %s)' % (core.TOOLBIN[tool], cmd, game, cls, entry['name']), replay, require_file_named=[name] + ([os.path.basename(outdir) + '/'] if outdir else []))
+    v = crash.judge_exec(ctx, 'C16', job, resp, len(data), '%s %s -g %s (%s of %s)' % (core.TOOLBIN[tool], cmd, game, cls, entry['name']), replay,
+                         require_file_named=[name] + ([os.path.basename(outdir) + '/'] if outdir else []) + (['subdir/file0.png', 'a.png'] if cmd == 'imgsrc' else []), input_id=input_id)
     if outdir: shutil.rmtree(outdir, ignore_errors=True)
     ctx.count('verdict_' + v)
     ctx.seen('entry_points', '%s-%s%s' % (tool, cmd, '-' + msg_mode if msg_mode else ''))
     ctx.seen('games', game)
     if cmd == 'extract': ctx.count('extract_runs')
+    if cmd == 'imgsrc': ctx.count('image_source_runs')
     if cls == 'pristine':
         ctx.count('pristine_ok' if v == 'ok' else 'pristine_not_ok')
         if v != 'ok': ctx.seen('pristine_failures', '%s: %s' % (entry['name'], core.norm_msg(core.headline(resp.get('diag', '')))[:80]))
@@ -56,35 +78,69 @@ def run_shard(ctx):
     r = ctx.rng
     tables = formats.SigTables(ctx)
     n = SIZES[ctx.tier] // ctx.nshards + 1
-    corp = corpus.bundled() + corpus.compile_generated(ctx, tables, 30 if ctx.tier == 'quick' else 150)
+    q = ctx.tier == 'quick'
+    corp = corpus.bundled() + corpus.compile_generated(ctx, tables, 30 if q else 150)
+    # binaries the generic generators do not produce: ANM files with embedded textures (what extract and image sources read)
+    # and modern (TH10+) ECL files
+    corp += corpus.compile_generated(ctx, tables, 6 if q else 30, kinds=['anmtex'], weights={'anmtex': 1})
+    corp += corpus.compile_generated(ctx, tables, 6 if q else 30, kinds=['ecl10'], weights={'ecl10': 1})
+    for e in corp:
+        e['fields'], e['regions'] = FM.field_map(e['tool'], e['game'], e['msg_mode'], e['data'])
+        ctx.count('field_map_fields', len(e['fields']))
+        if e['tool'] == 'anm' and b'THTX' in e['data']: ctx.count('corpus_anm_with_texture')
+        if e['tool'] == 'ecl' and e['data'][:4] == b'SCPT': ctx.count('corpus_modern_ecl')
     # pristine files first
     for i, e in enumerate(corp):
         if i % ctx.nshards == ctx.shard or e['origin'] == 'compiled':
             run_one(ctx, e, e['data'], e['tool'], e['game'], e['msg_mode'], 'decompile', 'pristine')
             if e['tool'] == 'anm': run_one(ctx, e, e['data'], 'anm', e['game'], None, 'extract', 'pristine')
     done = 0
+    def cmd_for(e):
+        if e['tool'] != 'anm': return 'decompile'
+        tex = b'THTX' in e['data']
+        return r.wpick([('extract', 5 if tex else 2), ('imgsrc', 3 if tex else 1), ('decompile', 4 if tex else 8)])
+    # directed: the one recorded cause of unbounded memory in extract (image offsets of a textured v7+ entry), so that the known finding
+    # is observed deterministically and anything else stays new
+    for i, e in enumerate([e for e in corp if e['tool'] == 'anm' and b'THTX' in e['data'] and formats.game_ge(e['game'], 'th11')][:4]):
+        if i % ctx.nshards != ctx.shard % 4 or ctx.shard >= 4: continue
+        d = bytearray(e['data']); d[20:24] = (4500).to_bytes(2, 'little') * 2
+        run_one(ctx, e, bytes(d), 'anm', e['game'], None, 'extract', 'mutant', {'kind': 'directed-image-offsets', 'offset_x': 4500, 'offset_y': 4500})
     while done < n:
         e = r.pick(corp)
         data = e['data']
         tool, game, msg_mode = e['tool'], e['game'], e['msg_mode']
-        k = r.wpick([('mutate', 10), ('truncate-sweep', 1), ('cross-game', 1.5), ('double', 2)])
+        k = r.wpick([('field', 10), ('field2', 3), ('region', 2), ('mutate', 4), ('truncate-sweep', 0.6), ('truncate-fields', 0.6), ('cross-game', 1.5), ('double', 1)])
+        if k in ('field', 'field2', 'region') and not e['fields']: k = 'mutate'
+        if k == 'region' and not e['regions']: k = 'field'
         if k == 'truncate-sweep':
             step = max(1, len(data) // 40)
             for cut in range(0, len(data), step):
                 run_one(ctx, e, data[:cut], tool, game, msg_mode, 'decompile', 'truncated', {'cut': cut}); done += 1
             continue
+        if k == 'truncate-fields':
+            pts = FM.truncate_points(e['fields'], e['regions'], len(data))
+            for cut in (pts if len(pts) <= 60 else sorted(r.sample(pts, 60))):
+                run_one(ctx, e, data[:cut], tool, game, msg_mode, cmd_for(e), 'truncated-at-field', {'cut': cut}); done += 1
+            continue
         if k == 'cross-game':
-            games = {'anm': formats.ANM_GAMES, 'std': formats.STD_GAMES, 'msg': formats.MSG_GAMES, 'ecl': formats.ECL_GAMES}[tool]
+            games = {'anm': formats.ANM_GAMES, 'std': formats.STD_GAMES, 'msg': formats.MSG_GAMES, 'ecl': formats.ECL_GAMES + formats.ECL10_GAMES}[tool]
             if msg_mode == 'mission': games = formats.MISSION_GAMES
             if msg_mode == 'ending': games = formats.END_GAMES
             g2 = r.pick(games)
             run_one(ctx, e, data, tool, g2, msg_mode, 'decompile', 'cross-game', {'as': g2}); done += 1
             if tool == 'anm' and r.chance(0.3): run_one(ctx, e, data, tool, g2, None, 'extract', 'cross-game', {'as': g2}); done += 1
             continue
-        m, kind, pos = mutate.mutate_bytes(r, data)
-        if k == 'double': m, kind2, pos2 = mutate.mutate_bytes(r, m); kind = kind + '+' + kind2
-        cmd = 'extract' if (tool == 'anm' and r.chance(0.25)) else 'decompile'
-        run_one(ctx, e, m, tool, game, msg_mode, cmd, 'mutant', {'kind': kind, 'pos': pos}); done += 1
+        if k == 'field':
+            m, mut = FM.mutate_field(r, data, e['fields']); ctx.count('field_mutants')
+        elif k == 'field2':
+            m, mut = FM.mutate_field(r, data, e['fields']); m, mut2 = FM.mutate_field(r, m, e['fields']); mut = [mut, mut2]; ctx.count('field_mutants')
+        elif k == 'region':
+            m, mut = FM.mutate_region(r, data, e['regions']); ctx.count('region_mutants')
+        else:
+            m, kind, pos = mutate.mutate_bytes(r, data)
+            if k == 'double': m, kind2, pos2 = mutate.mutate_bytes(r, m); kind = kind + '+' + kind2
+            mut = {'kind': kind, 'pos': pos}
+        run_one(ctx, e, m, tool, game, msg_mode, cmd_for(e), 'mutant', mut); done += 1
 
 def replay(path):
     rec = json.load(open(path))
@@ -94,6 +150,9 @@ def replay(path):
         job = dict(rec['job'])
         inp = os.path.join(d, job['in']); open(inp, 'wb').write(bytes.fromhex(rec['data_hex']))
         job['in'] = inp; job['out'] = os.path.join(d, 'out')
+        if rec.get('entry_point') == 'imgsrc':
+            spec = os.path.join(d, 'imgsrc.spec'); open(spec, 'w').write(IMGSRC_TEXT)
+            job['in'] = spec; job['images'] = [inp]
         rc, out, err = core.run_vtruth(core.job_argv(job), rec.get('profile', 'dev'))
         print('argv:', ' '.join(core.job_argv(job))); print('exit status:', rc); print(err[-3000:])
         bad = rc not in (0, 1) or (rc == 0) == core.has_error_diag(err)
